@@ -100,6 +100,57 @@ def extract_linear_solve(sol):
     return M, b
 
 
+def exact_inverse(M):
+    """Gauss-Jordan inverse of a matrix of canonical forms, pivoting only on entries that are single terms (units of the
+    Laurent ring: a constant times powers of symbols), so that no division is ever approximate or opaque.  Boundary-value
+    matrices of Bezier curves (constants over powers of T, block triangular) invert this way.  None when a pivot of
+    that kind is missing."""
+    n = M.r
+    A = [list(r) for r in M.cells]
+    E = [[cm.ONE if i == j else Poly() for j in range(n)] for i in range(n)]
+    unit = lambda p: len(p.t) == 1 and all(a.kind == "sym" for a, e in next(iter(p.t)))
+    rows, cols, piv = set(range(n)), set(range(n)), {}
+    for _ in range(n):
+        cand = [(sum(1 for c2 in cols if A[r][c2].t), r, c) for r in rows for c in cols if unit(A[r][c])]
+        if not cand:
+            return None
+        _, r, c = min(cand)
+        pin = A[r][c].recip()
+        A[r] = [x * pin if x.t else x for x in A[r]]
+        E[r] = [x * pin if x.t else x for x in E[r]]
+        for k in range(n):
+            if k != r and A[k][c].t:
+                f = A[k][c]
+                A[k] = [x - f * y if y.t else x for x, y in zip(A[k], A[r])]
+                E[k] = [x - f * y if y.t else x for x, y in zip(E[k], E[r])]
+        rows.discard(r)
+        cols.discard(c)
+        piv[c] = r
+    return MatVal(n, n, [E[piv[c]] for c in range(n)], "SX")
+
+
+def resolve_inverses(sol):
+    """sol with every inv(A)[i, j] atom replaced by the exact inverse's cell, or None if some A has no exact inverse."""
+    fams = {}
+    for p_ in sol.flat():
+        for a in all_atoms(p_):
+            if a.kind == "inv":
+                fams.setdefault((a.key[2],) + tuple(a.key[3:]), None)
+    for fam in fams:
+        nn, flat = fam[0], fam[1:]
+        M = MatVal(nn, nn, [[flat[j * nn + i] for j in range(nn)] for i in range(nn)], "SX")     # column-major flat
+        X = exact_inverse(M)
+        if X is None:
+            return None
+        fams[fam] = X
+
+    def f(a):
+        if a.kind == "inv":
+            return fams[(a.key[2],) + tuple(a.key[3:])].cells[a.key[0]][a.key[1]]
+        return None
+    return MatVal(sol.r, sol.c, [[deep_subs(p_, f) if p_.t else p_ for p_ in row] for row in sol.cells], sol.kind)
+
+
 def check_solver(w, rep, fn, key_solve, key_traj, n, nbc):
     mod = w.mod(MOD)
     if fn not in mod:
@@ -119,34 +170,41 @@ def check_solver(w, rep, fn, key_solve, key_traj, n, nbc):
             return ft
         wp0, wp1, T = w.sym("wp0", nbc), w.sym("wp1", nbc), w.sym("T")
         sol = fs(wp0, wp1, T)
+        def verify_direct(sol_, how):
+            """an explicit solution: verify the boundary conditions directly on the Bernstein curve it defines"""
+            t = w.sym("tref")
+            ta = t.s().single_atom()
+            curve = bernstein(sol_, t.s(), T.s(), n).cells[0][0]
+            for e_, wp in ((0, wp0), (1, wp1)):
+                for k in range(nbc):
+                    dk = curve
+                    for _ in range(k):
+                        dk = dk.diff(ta)
+                    val = deep_subs(dk, lambda a: (T.s() if e_ else Poly()) if a is ta else None)
+                    inst = "%s (%s): derivative of order %d at t = %s equals the requested value" % (key_solve, how, k, "T" if e_ else "0")
+                    v = decide(val, wp.cells[k][0])
+                    if v == EQUAL:
+                        rep.ok("C18.boundary", inst)
+                    elif v == DIFFERENT:
+                        rep.fail("C18.boundary", inst, "the returned control points give %s there, requested %s" % (short(val, 60), short(wp.cells[k][0], 30)), where=W)
+                    else:
+                        rep.incomplete("C18.boundary", inst, "cannot decide", where=W)
+
         ex = extract_linear_solve(sol)
         if ex is None:
+            if any(a.kind == "inv" for p_ in sol.flat() for a in all_atoms(p_)):
+                # a solution assembled from inverses in some other way (blocks, reuse of one block): invert exactly
+                # and verify the boundary conditions on the result
+                sol = resolve_inverses(sol) or sol
             if not any(a.kind in ("inv", "solve") for p_ in sol.flat() for a in all_atoms(p_)):
-                # an explicit (closed-form) solution: verify the boundary conditions directly on the Bernstein curve it defines
-                t = w.sym("tref")
-                ta = t.s().single_atom()
-                curve = bernstein(sol, t.s(), T.s(), n).cells[0][0]
-                allok = True
-                for e_, wp in ((0, wp0), (1, wp1)):
-                    for k in range(nbc):
-                        dk = curve
-                        for _ in range(k):
-                            dk = dk.diff(ta)
-                        val = deep_subs(dk, lambda a: (T.s() if e_ else Poly()) if a is ta else None)
-                        inst = "%s (closed form): derivative of order %d at t = %s equals the requested value" % (key_solve, k, "T" if e_ else "0")
-                        v = decide(val, wp.cells[k][0])
-                        if v == EQUAL:
-                            rep.ok("C18.boundary", inst)
-                        elif v == DIFFERENT:
-                            allok = False
-                            rep.fail("C18.boundary", inst, "the returned control points give %s there, requested %s" % (short(val, 60), short(wp.cells[k][0], 30)), where=W)
-                        else:
-                            allok = False
-                            rep.incomplete("C18.boundary", inst, "cannot decide", where=W)
+                verify_direct(sol, "closed form")
                 return ft
             rep.incomplete("C18.boundary", "%s is inv(A) @ b" % key_solve, "solution is not of the form inv(A) b with a single constraint matrix", where=W)
             return ft
         A, b = ex
+        exact = resolve_inverses(sol)
+        if exact is not None:
+            verify_direct(exact, "inverse evaluated exactly")
         # reference functionals: k-th derivative of the Bernstein curve at t = e T
         P = w.sym("Pref", 1, n + 1)
         t = w.sym("tref")
